@@ -4,6 +4,6 @@ CONSTANTS
   ParamSet <- PS_Q
   MaxSteps = 7
   MaxRuns = 2
-INVARIANTS ItemsOK AcfOK
+INVARIANTS ItemsOK AcfOK CrossScope
 \* vacuity: on
 CHECK_DEADLOCK FALSE
